@@ -235,7 +235,7 @@ def make_spec(stream, rng, edge_index=None):
         spec["delay"] = None
         obs = spec["observations"]
         kinds = ["threshold", "handover", "threshold2", "hotfit", "coldfit", "machines", "ingestlimit", "arrays", "rate",
-                 "coldshort", "ingestlimit3", "ratefrac"]
+                 "coldshort", "ingestlimit3", "ratefrac", "emptywf"]
         which = kinds[edge_index % len(kinds)] if edge_index is not None else rng.choice(kinds)
         obs.sort(key=lambda o: o["start"])
         if len(obs) < 2 and which in ("threshold2", "hotfit", "ingestlimit", "arrays", "handover"):
@@ -332,11 +332,27 @@ def make_spec(stream, rng, edge_index=None):
             spec["total_arrays"] = a["demand"] + b["demand"]
         elif which == "rate":
             spec["hot"]["rate"] = max(o["rate"] for o in obs)
+        elif which == "emptywf":
+            # an observation whose workflow has no task at all (a pure calibration scan): it is queued,
+            # "processed" and removed within one step, possibly before the telescope has marked it finished
+            k = rng.randrange(len(obs))
+            obs[k]["workflow"] = {"nodes": [], "edges": []}
+            if obs[k]["start"] < 1:
+                for o in obs:
+                    o["start"] += 1
+            if spec["scheduling"]["kind"] == "dynamic":
+                spec["planning"], spec["scheduling"] = "batch", {"kind": "queue"}
         elif which == "ratefrac":
             # a fractional (binary-exact) data rate just above / at / below the hot tier's maximum ingest rate:
             # the parser rounds it to a whole number, and a rate above the maximum is refused with an error
             spec["hot"]["rate"] = max(1, max(o["rate"] for o in obs))
-            obs[-1]["rate"] = spec["hot"]["rate"] + rng.choice([0.75, 0.25, -0.25, 0.5])
+            if rng.random() < 0.5:
+                obs[-1]["rate"] = spec["hot"]["rate"] + rng.choice([0.75, 0.25, -0.25, 0.5])
+            else:
+                # ... or the LIMIT is fractional and a whole-number rate lies just above / below it
+                k = spec["hot"]["rate"]
+                spec["hot"]["rate"] = k + rng.choice([0.75, 0.5, 0.25])
+                obs[-1]["rate"] = k + rng.choice([1, 1, 0])
         elif which == "handover" and len(obs) >= 2:
             # x starts in exactly the step y finishes, fills the telescope, and is listed first
             y, x = obs[0], obs[1]
@@ -516,5 +532,23 @@ def run_case(job):
             "feasible": simgen.feasible(spec), "tier_moves": mon.tier_moves,
         }
         return out
-    except BaseException as e:   # noqa  infrastructure failure, not a verdict
+    except BaseException as e:   # noqa
+        # outside a simulation run (configuration parsing, object construction): an exception raised by the
+        # implementation on a generated, legal configuration is a behaviour of the implementation, reported
+        # against the property being checked; anything else is an infrastructure failure, not a verdict
+        repo = os.path.realpath(os.environ.get("TOPSIM_REPO", "/repo"))
+        frames, ex, seen = [], e, set()
+        while ex is not None and id(ex) not in seen and isinstance(ex, Exception):
+            seen.add(id(ex))
+            frames += traceback.extract_tb(ex.__traceback__)
+            ex = ex.__cause__ or ex.__context__
+        inside = [f for f in frames if os.path.realpath(f.filename).startswith(repo + os.sep)]
+        if inside and isinstance(e, Exception):
+            w = inside[-1]
+            return {"stream": stream, "seed": seed, "spec": locals().get("spec"), "opt": locals().get("opt"),
+                    "violations": [{"prop": "*", "kind": "implementation-raised-outside-run",
+                                    "sig": "setup-raised:%s@%s:%s" % (type(e).__name__, os.path.basename(w.filename), w.name),
+                                    "detail": "%s: %s (in %s:%d %s)" % (type(e).__name__, str(e)[:120],
+                                                                       os.path.relpath(w.filename, repo), w.lineno, w.name)}],
+                    "features": {}, "replay": None, "end": None, "exception": None, "nonterminated": False}
         return {"stream": stream, "seed": seed, "infra_error": "%s\n%s" % (repr(e), traceback.format_exc()[-1500:])}
